@@ -9,8 +9,11 @@ package pptx
 // builds it (or a callee on the same receiver) reads the parsed presentation and its relationships.
 //@ func (*Reader) parseSlides
 //@   property C18
-//@   flags frameonly
+//@   flags callsites
 //@   mustread presentation
+// "never in archive order or file-name order": whatever else decides the order, a plain string sort of the part names
+// (slide1, slide10, slide11, slide2, ...) must not
+//@   callsite sort.Strings(x) requires never_ordered_by_file_name: false
 
 // ---- C10: Close releases the archive handle the reader owns, once; closing again is harmless ----
 //@ func (*Reader) Close results (err)
